@@ -19,6 +19,7 @@ def obsStep (s : St) (a : Act) (s' : St) : List Ev :=
     (if skipped then [] else [Ev.slot s.counter s.max]) ++ [Ev.decision c x.forced skipped, locOf s' c]
   | .helperGuard c => if (s.chk c).running then [] else [Ev.execStart c]     -- the command starts after a successful guard
   | .result c => [Ev.execEnd c]
+  | .procExit c => [Ev.execEnd c]                                            -- the process has finished
   | .objectHandler c => [locOf s' c]
   | .nextCheckChanged c => [locOf s' c]
   | .helperFinish c => [locOf s' c]
